@@ -91,7 +91,7 @@ query = op('query', q=st.integers(0, 5), i=I)
 write = op('write')
 reopen = op('reopen')
 
-add_boot = op('add_boot', b=I, j=I, d=I, media=st.integers(0, 4), plat=st.integers(0, 5), load=st.one_of(NONE, NONE, st.sampled_from([1, 4, 8, 100])),
+add_boot = op('add_boot', b=I, j=I, d=I, media=st.integers(0, 4), plat=st.integers(0, 5), load=st.one_of(NONE, NONE, st.sampled_from([1, 4, 8, 100, 0, 65535])),
               seg=st.sampled_from([0, 0, 0x7c0, 0x1000]), bootable=st.sampled_from([1, 1, 1, 0]), efi=st.booleans(), bit=st.booleans(),
               catexplicit=st.booleans(), csz=st.integers(0, 2), sz=SZ, rsz=st.integers(0, 2), usz=st.integers(0, 2), lead=I, salt=I)
 rm_boot = op('rm_boot')
